@@ -165,6 +165,9 @@ def mk_not(a):
 
 
 def mk_proj(t, i):
+    if i == 0 and t[0] == "down" and t[2] == 1 and t[1][0] == "optref":
+        # the payload of Some(&x) obtained by as_ref/as_mut of an Option place is a reference into that place
+        return ("ref", ("field", ("down", t[1][1], 1), 0))
     if t[0] == "agg":
         fields = t[2]
         if i < len(fields):
@@ -197,6 +200,8 @@ def mk_down(t, variant):
 def mk_discr(t):
     if t[0] == "agg" and isinstance(t[1], tuple) and t[1][0] == "adt":
         return mk_int(t[1][2])
+    if t[0] == "optref":
+        return t[2]
     return ("discr", t)
 
 
@@ -927,6 +932,10 @@ class Interp:
             if ak["k"] == "adt":
                 if ak.get("union_field") is not None:
                     return ("union", ak["path"], ak["union_field"], ops)
+                # eta: rebuilding a variant from all the fields of the same variant of X is X itself
+                # (Some(b) where b was bound by `Some(b)` matching X)
+                if ops and all(isinstance(o, tuple) and len(o) == 3 and o[0] == "proj" and o[1] == i and isinstance(o[2], tuple) and o[2][0] == "down" and o[2][2] == ak["variant"] for i, o in enumerate(ops)) and len({o[2] for o in ops}) == 1 and len(ops) == len(ak["fields"]):
+                    return ops[0][2][1]
                 return ("agg", ("adt", ak["path"], ak["variant"], ak["variant_name"], tuple(ak["fields"])), ops)
             if ak["k"] == "closure":
                 cb = self.body.crate.by_key.get(ak["def"])
@@ -1386,6 +1395,14 @@ def ax_replace(I, st, fn, args, bb):
     return va
 
 
+def ax_mem_take(I, st, fn, args, bb):
+    """std::mem::take(&mut x): returns the old value, leaves Default::default()"""
+    pa = _ref_place(args[0])
+    va = I.read_pl(st, pa)
+    I.write_pl(st, pa, ("call", "std::default::Default::default", (), None), bb, None)
+    return va
+
+
 def ax_take_option(I, st, fn, args, bb):
     pa = _ref_place(args[0])
     va = I.read_pl(st, pa)
@@ -1529,6 +1546,9 @@ AXIOMS = {
     "std::mem::swap": ax_swap,
     "core::mem::swap": ax_swap,
     "std::mem::replace": ax_replace,
+    "core::mem::replace": ax_replace,
+    "std::mem::take": ax_mem_take,
+    "core::mem::take": ax_mem_take,
     "std::option::Option::<T>::take": ax_take_option,
     "std::option::Option::<T>::is_some": ax_is_some,
     "std::option::Option::<T>::is_none": ax_is_none,
